@@ -76,6 +76,9 @@ func (s *faultSource) fail() error {
 }
 
 // Read is called by one goroutine at a time (the reader serialises access with its head token).
+// Kind "err": from the fault point on every Read fails (the device has gone).
+// Kind "eof": the file is truncated at the fault point T: reads below T succeed, reads at or beyond T report
+// io.EOF (also after a Seek), exactly like a shorter file.
 func (s *faultSource) Read(p []byte) (int, error) {
 	atomic.AddInt32(&s.inCall, 1)
 	defer atomic.AddInt32(&s.inCall, -1)
@@ -85,14 +88,26 @@ func (s *faultSource) Read(p []byte) (int, error) {
 	if len(p) == 0 {
 		return 0, nil
 	}
-	if s.failing {
+	if s.failing && s.in.Kind != "eof" {
 		return 0, s.fail()
 	}
 	limit := len(s.file)
+	if s.failing { // truncated at failedAt
+		limit = s.failedAt
+		if s.pos >= limit {
+			return 0, io.EOF
+		}
+	}
 	byteFault := false
-	if s.in.ByteFaultAt >= 0 && s.in.ByteFaultAt >= s.pos && s.in.ByteFaultAt < limit {
+	if !s.failing && s.in.ByteFaultAt >= 0 && s.in.ByteFaultAt < limit && (s.in.ByteFaultAt >= s.pos || s.in.Kind == "eof") {
 		limit = s.in.ByteFaultAt
 		byteFault = true
+		if s.pos > limit { // a truncated file read beyond its end
+			s.failing = true
+			s.reached = true
+			s.failedAt = limit
+			return 0, io.EOF
+		}
 	}
 	n := len(p)
 	if s.in.Chunk > 0 && n > s.in.Chunk {
@@ -101,7 +116,7 @@ func (s *faultSource) Read(p []byte) (int, error) {
 	if n > limit-s.pos {
 		n = limit - s.pos
 	}
-	callFault := s.in.ReadFaultAt >= 0 && idx >= s.in.ReadFaultAt
+	callFault := !s.failing && s.in.ReadFaultAt >= 0 && idx >= s.in.ReadFaultAt
 	if callFault || (byteFault && s.pos == limit) {
 		s.failing = true
 		s.reached = true
@@ -115,7 +130,7 @@ func (s *faultSource) Read(p []byte) (int, error) {
 		return k, s.fail()
 	}
 	if n == 0 {
-		return 0, io.EOF // the true end of the file
+		return 0, io.EOF // the true end of the file (or of the truncated file)
 	}
 	copy(p, s.file[s.pos:s.pos+n])
 	s.pos += n
@@ -262,10 +277,11 @@ func rRunAndJudge(c *ctx, in rInput, d *Driver, impl *[]string) (reached bool) {
 		if lpos == len(flat) {
 			return
 		}
-		// a truncated source cut exactly at a member boundary is indistinguishable from a shorter file
+		// a source truncated at T: positioned on a member boundary at or beyond T the reader sees exactly what it
+		// would see at the end of a shorter file
 		if in.Kind == "eof" && src.failing {
 			for _, m := range ms {
-				if m.off == src.failedAt && m.dataOff == lpos {
+				if m.off >= src.failedAt && m.dataOff == lpos {
 					return
 				}
 			}
@@ -316,7 +332,7 @@ func rRunAndJudge(c *ctx, in rInput, d *Driver, impl *[]string) (reached bool) {
 		name := map[string]string{"r": "read", "b": "readbyte", "s": "seek", "c": "close"}[op.K]
 		if hg != nil {
 			atomic.AddInt32(&rHangs, 1)
-			res.fail(fmt.Sprintf("reader.hang.%s.%s", name, cfgs), fmt.Sprintf("op %d (%s) did not return (dead-lock by goroutine dump: %v), API goroutine parked in %s", i, name, hg.Deadlock, hg.APIFrame), input)
+			res.fail(fmt.Sprintf("reader.hang.%s.%s", name, cfgs), fmt.Sprintf("op %d (%s) did not return (dead-lock by goroutine dump: %v), API goroutine parked in %s; library goroutines: %s", i, name, hg.Deadlock, hg.APIFrame, libSummary(hg.Dump)), input)
 			return src.reached
 		}
 		if oc.panicked {
@@ -561,4 +577,33 @@ func checkC09Reader(c *ctx, n int, budget time.Duration) {
 		res.note("reader: %d sequential outcomes differ from the sequential fault model", res.NDisagreements-before)
 	}
 	res.TracesValidated += len(impl)
+}
+
+// libSummary lists, for every goroutine with bgzf frames, its state and its innermost bgzf frame with line.
+func libSummary(dump string) string {
+	var out []string
+	for _, sec := range strings.Split(dump, "\n\n") {
+		if !strings.Contains(sec, "github.com/biogo/hts/bgzf.") {
+			continue
+		}
+		lines := strings.Split(sec, "\n")
+		for i, l := range lines {
+			if strings.HasPrefix(l, "github.com/biogo/hts/bgzf.") && i+1 < len(lines) {
+				loc := strings.TrimSpace(lines[i+1])
+				if j := strings.LastIndex(loc, "/"); j >= 0 {
+					loc = loc[j+1:]
+				}
+				if j := strings.Index(loc, " "); j >= 0 {
+					loc = loc[:j]
+				}
+				fn := strings.TrimPrefix(l, "github.com/biogo/hts/bgzf.")
+				if j := strings.LastIndex(fn, "("); j > 0 {
+					fn = fn[:j]
+				}
+				out = append(out, fmt.Sprintf("[%s] %s %s", goroutineState(sec), fn, loc))
+				break
+			}
+		}
+	}
+	return strings.Join(out, "; ")
 }
